@@ -120,6 +120,12 @@ def zero_only_on_short_buffer(chk, rule, prog, eff, CS, encoders):
             calls = [e for e in pa.events if e.kind == "call" and e.ckind == "lib" and e.callee in failsig]
             r = pa.ret
             n += 1
+            # "the running total came out as 0" asked of a sum with a positive byte count in it: the total stays within the window
+            # (C07.window), so the sum did not wrap and the path does not exist
+            if any(t[0] == "icmp" and t[1] in ("eq", "ne") and t[3] == ("c", 0) and truth == (t[1] == "eq") and isinstance(t[2], tuple) and
+                   t[2][0] == "op" and t[2][1] == "add" and any(_positive(st, x) or (P.is_const(x) and x[1] > 0) for x in t[2][3:5])
+                   for t, truth, _ in pa.facts):
+                continue
             if _zero(st, r) and not (r[0] == "call" and any(e.res == r for e in calls)):
                 why = None
                 if any(_zero(st, e.res) for e in calls):
